@@ -64,6 +64,16 @@ CHECKS = {
    "For 7 leaf families (scalars, nested scalars, names with underscores, lists of structs with nested maps, lists inside structs inside lists, durations, sizes, booleans) every subset of leaves is given via the environment and the rest via the file, every leaf in both with different values, every permutation (<=5 variables) / rotation of the environment and every Go map iteration order with <=1 (quick) / <=2 (thorough) deviating iterations; the resulting Configuration must be deep-equal to the all-in-file load. For every mechanism kind/type/option the minimal configuration is given once in the file (schema validated) and once purely via the environment and must be usable (load + catalogue instantiation) in both or neither.",
    "Environment values whose type clashes with the structure are don't-care (documented: refuses to start); maps with more than 8 entries are not exhaustively ordered (reported); nil vs empty collections compare equal.",
    "DESIGN.md 4 C20"),
+ "C03": ("exploration", "enum",
+   "bounded exhaustive enumeration of matcher definitions (scheme, method lists, host lists, route shapes, path_params, encoded-slash settings) x requests through the real decision service against a reference matcher and decoded-capture model",
+   "Two full products: scheme x 7 method lists x all host lists of length 0-2 over exact/glob/regex expressions x (3 methods x 2 schemes x 5 hosts); 7 route shapes x path_params on every named wildcard (exact/glob/regex, matching or not) x 3 settings x all request paths of the segment alphabet (plain, %20, %5B..%5D, %2F, %2f); each through real request parsing, rule factory, radix tree, matchers, rule execution and a header finalizer echoing Request.URL.Captures.",
+   "Methods lists with exclusions only are not judged; encoded slashes under setting off belong to C08.",
+   "DESIGN.md 4 C03"),
+ "C04": ("exploration", "enum",
+   "bounded exhaustive enumeration of authenticator chains (length <=3 over the six real authenticator types) x fallback flag sources x Authorization/X-Session header alphabets x remote outcomes, executed on real rules against a reference fallback walk",
+   "All chains of length <=2 (quick) / <=3 (thorough) over real jwt, basic_auth, generic, oauth2_introspection, anonymous and unauthorized authenticators built by the production mechanism factory, every assignment and source (catalogue, rule-level override, inheritance) of allow_fallback_on_error, 19 Authorization header values, 5 session header values and {ok, 503, transport error} for every in-process remote; subject, error owner and contacted remotes are compared with a reference walk; chains <=2 additionally through the assembled decision service.",
+   "Malformed credentials are a don't-care (observed classification recorded); docs decide that an opaque bearer token is 'not its kind' for jwt.",
+   "DESIGN.md 4 C04"),
 }
 
 NOT_YET = {
